@@ -210,6 +210,8 @@ class Interp:
         dflt_kw = None
         if isinstance(expr, ast.Call) and ast.unparse(expr.func) in ("field", "dataclasses.field") and owner.is_dataclass:
             dflt_kw = next((kw.value for kw in expr.keywords if kw.arg == "default"), None)
+            if dflt_kw is None and not any(kw.arg == "default_factory" for kw in expr.keywords):
+                return UNBOUND      # field() without default: the dataclass machinery leaves no class attribute behind
         if owner.is_subclass_of("Enum") or owner.is_subclass_of("enum.Enum"):
             v = EnumVal(owner, name)
         elif dflt_kw is not None:      # dataclass field(default=X): the class attribute (and the value of an instance that never set it) is X
